@@ -1,6 +1,233 @@
-//! serde / rayon / collect bulk paths (C19, C03). Filled in later.
+//! Bulk paths: serde (Serialize / Deserialize), rayon (par_extend / from_par_iter), collect /
+//! extend from iterators with lying size hints (C19, and the FromIterator part of C03).
+
+use std::panic::{catch_unwind, AssertUnwindSafe};
+
+use flurry::{HashMap, HashSet};
+use rayon::prelude::*;
+use serde::Deserialize;
 use serde_json::{json, Value};
 
-pub fn run_bulk(job: &crate::Job, _raw: &str) -> Value {
-    json!({"id": job.id, "outcome": "Unsupported", "ev": []})
+use crate::alloc;
+use crate::kv::{self, Key, Val, H};
+use crate::sched::{self, Exec};
+
+#[derive(Deserialize, Clone, Debug, Default)]
+pub struct Bulk {
+    pub how: String,
+    /// entries [k, v] (serde / rayon, plain integer keys and values) or [k, tag, uid, pl] (collect / extend)
+    #[serde(default)]
+    pub entries: Vec<Vec<i64>>,
+    /// raw document text for deserialisation (if empty it is built from `entries`)
+    #[serde(default)]
+    pub doc: String,
+    #[serde(default)]
+    pub pool: usize,
+    /// size hint of the iterator given to collect: "exact" | "zero" | "half"
+    #[serde(default)]
+    pub hint: String,
+}
+
+struct Hinted<I> {
+    it: I,
+    lo: usize,
+}
+impl<I: Iterator> Iterator for Hinted<I> {
+    type Item = I::Item;
+    fn next(&mut self) -> Option<I::Item> {
+        self.it.next()
+    }
+    fn size_hint(&self) -> (usize, Option<usize>) {
+        (self.lo, None)
+    }
+}
+
+fn doc_map(entries: &[Vec<i64>]) -> String {
+    let body: Vec<String> = entries.iter().map(|e| format!("\"{}\":{}", e[0], e[1])).collect();
+    format!("{{{}}}", body.join(","))
+}
+fn doc_set(entries: &[Vec<i64>]) -> String {
+    let body: Vec<String> = entries.iter().map(|e| format!("{}", e[0])).collect();
+    format!("[{}]", body.join(","))
+}
+
+fn map_items(m: &HashMap<u32, i64, H>) -> Vec<Value> {
+    let g = m.guard();
+    let mut v: Vec<(u32, i64)> = m.iter(&g).map(|(k, v)| (*k, *v)).collect();
+    v.sort();
+    v.into_iter().map(|(k, v)| json!([k, v])).collect()
+}
+fn set_items(s: &HashSet<u32, H>) -> Vec<Value> {
+    let g = s.guard();
+    let mut v: Vec<u32> = s.iter(&g).copied().collect();
+    v.sort();
+    v.into_iter().map(|k| json!([k, 1])).collect()
+}
+
+pub fn run_bulk(job: &crate::Job, raw: &str) -> Value {
+    #[derive(Deserialize)]
+    struct Wrap {
+        bulk: Bulk,
+    }
+    let b: Bulk = match serde_json::from_str::<Wrap>(raw) {
+        Ok(w) => w.bulk,
+        Err(e) => return json!({"id": job.id, "outcome": "BadJob", "err": e.to_string(), "ev": []}),
+    };
+    kv::ledger_reset(false);
+    alloc::begin();
+    let mode = crate::hash_mode(&job.hasher);
+    kv::set_default_hash_mode(mode.clone());
+    let exec = Exec::new(1);
+    {
+        let mut g = exec.m.lock().unwrap();
+        g.free_run = true;
+        g.rec_mem = false;
+        g.rec_sites = false;
+        g.thr[0].st = sched::St::Done;
+    }
+    *kv::SINK.lock().unwrap() = Some(exec.clone());
+    sched::attach(&exec, 0);
+    let b2 = b.clone();
+    let r = catch_unwind(AssertUnwindSafe(move || -> Value {
+        let b = b2;
+        match b.how.as_str() {
+            "serde_map" => {
+                let doc = if b.doc.is_empty() { doc_map(&b.entries) } else { b.doc.clone() };
+                match serde_json::from_str::<HashMap<u32, i64, H>>(&doc) {
+                    Ok(m) => json!({"outcome": "ok", "items": map_items(&m)}),
+                    Err(_) => json!({"outcome": "err", "items": []}),
+                }
+            }
+            "serde_set" => {
+                let doc = if b.doc.is_empty() { doc_set(&b.entries) } else { b.doc.clone() };
+                match serde_json::from_str::<HashSet<u32, H>>(&doc) {
+                    Ok(s) => json!({"outcome": "ok", "items": set_items(&s)}),
+                    Err(_) => json!({"outcome": "err", "items": []}),
+                }
+            }
+            "roundtrip_map" => {
+                let m: HashMap<u32, i64, H> = HashMap::with_hasher(H::default());
+                {
+                    let g = m.guard();
+                    for e in &b.entries {
+                        m.insert(e[0] as u32, e[1], &g);
+                    }
+                }
+                let s1 = serde_json::to_string(&m).unwrap();
+                let s2 = serde_json::to_string(&m.pin()).unwrap();
+                let m2: HashMap<u32, i64, H> = serde_json::from_str(&s1).unwrap();
+                let m3: HashMap<u32, i64, H> = serde_json::from_str(&s2).unwrap();
+                json!({"outcome": "ok", "items": map_items(&m2), "orig": map_items(&m), "eq": (m == m2 && m2 == m && m == m3) as u8})
+            }
+            "roundtrip_set" => {
+                let s: HashSet<u32, H> = HashSet::with_hasher(H::default());
+                {
+                    let g = s.guard();
+                    for e in &b.entries {
+                        s.insert(e[0] as u32, &g);
+                    }
+                }
+                let t1 = serde_json::to_string(&s).unwrap();
+                let t2 = serde_json::to_string(&s.pin()).unwrap();
+                let s2: HashSet<u32, H> = serde_json::from_str(&t1).unwrap();
+                let s3: HashSet<u32, H> = serde_json::from_str(&t2).unwrap();
+                json!({"outcome": "ok", "items": set_items(&s2), "orig": set_items(&s), "eq": (s == s2 && s2 == s && s == s3) as u8})
+            }
+            "par_extend_map" | "from_par_iter_map" | "par_extend_mapref" => {
+                let pool = rayon::ThreadPoolBuilder::new().num_threads(b.pool.max(1)).build().unwrap();
+                let items: Vec<(u32, i64)> = b.entries.iter().map(|e| (e[0] as u32, e[1])).collect();
+                let m: HashMap<u32, i64, H> = pool.install(|| match b.how.as_str() {
+                    "from_par_iter_map" => items.into_par_iter().collect(),
+                    "par_extend_mapref" => {
+                        let m = HashMap::with_hasher(H::default());
+                        m.pin().par_extend(items);
+                        m
+                    }
+                    _ => {
+                        let mut m = HashMap::with_hasher(H::default());
+                        m.par_extend(items);
+                        m
+                    }
+                });
+                json!({"outcome": "ok", "items": map_items(&m), "len": m.len()})
+            }
+            "par_extend_set" | "from_par_iter_set" => {
+                let pool = rayon::ThreadPoolBuilder::new().num_threads(b.pool.max(1)).build().unwrap();
+                let items: Vec<u32> = b.entries.iter().map(|e| e[0] as u32).collect();
+                let s: HashSet<u32, H> = pool.install(|| match b.how.as_str() {
+                    "from_par_iter_set" => items.into_par_iter().collect(),
+                    _ => {
+                        let mut s = HashSet::with_hasher(H::default());
+                        s.par_extend(items);
+                        s
+                    }
+                });
+                json!({"outcome": "ok", "items": set_items(&s), "len": s.len()})
+            }
+            "collect_map" | "collect_set" | "extend_map" | "collect_map_ref" => {
+                let n = b.entries.len();
+                let lo = match b.hint.as_str() {
+                    "zero" => 0,
+                    "half" => n / 2,
+                    _ => n,
+                };
+                let its: Vec<(Key, Val)> = b
+                    .entries
+                    .iter()
+                    .map(|e| (Key::new(e[0] as u32, e[1] as u32), Val::new(e[2] as u64, e[3])))
+                    .collect();
+                if b.how == "collect_set" {
+                    let s: HashSet<Key, H> = Hinted { it: its.into_iter().map(|(k, _)| k), lo }.collect();
+                    let g = s.guard();
+                    let mut v: Vec<(u32, u32, u64)> = s.iter(&g).map(|k| (k.id, k.tag, 1)).collect();
+                    v.sort();
+                    let len = s.len();
+                    drop(g);
+                    drop(s);
+                    json!({"outcome": "ok", "items": v.iter().map(|(k, t, u)| json!([k, t, u])).collect::<Vec<_>>(), "len": len})
+                } else {
+                    let m: HashMap<Key, Val, H> = if b.how == "extend_map" {
+                        let m = HashMap::with_hasher(H::default());
+                        let mut mr = &m;
+                        mr.extend(Hinted { it: its.into_iter(), lo });
+                        m
+                    } else {
+                        Hinted { it: its.into_iter(), lo }.collect()
+                    };
+                    let g = m.guard();
+                    let mut v: Vec<(u32, u32, u64)> = m.iter(&g).map(|(k, v)| (k.id, k.tag, v.uid)).collect();
+                    v.sort();
+                    let len = m.len();
+                    drop(g);
+                    drop(m);
+                    json!({"outcome": "ok", "items": v.iter().map(|(k, t, u)| json!([k, t, u])).collect::<Vec<_>>(), "len": len})
+                }
+            }
+            other => json!({"outcome": "unknown", "how": other}),
+        }
+    }));
+    exec.on_hook(0, 0, &[]);
+    sched::detach();
+    *kv::SINK.lock().unwrap() = None;
+    let (created, dropped, viol) = kv::ledger_stats();
+    let alive = kv::ledger_alive().len();
+    let (live_blocks, quarantined, corrupted, overflow) = alloc::end();
+    let double_free = alloc::double_frees();
+    let g = exec.m.lock().unwrap();
+    let mut out = match r {
+        Ok(v) => v,
+        Err(_) => json!({"outcome": "panic", "items": []}),
+    };
+    let o = out.as_object_mut().unwrap();
+    o.insert("id".into(), json!(job.id));
+    o.insert("how".into(), json!(b.how));
+    o.insert("uaf".into(), json!(g.uaf));
+    o.insert(
+        "end".into(),
+        json!({"created": created, "dropped": dropped, "ledger_violations": viol, "alive": alive,
+               "live_blocks": live_blocks, "quarantined": quarantined, "corrupted": corrupted.len(),
+               "overflow": overflow, "double_free": double_free}),
+    );
+    o.insert("ev".into(), json!(g.trace));
+    out
 }
